@@ -342,6 +342,28 @@ def run(case):
                         nt.append(f"{key}|{cls}|{wt}|{e}")
             if len(viol) > 4:
                 break
+        if cyc:
+            # elements_to_ignore_percentile == explicitly ignoring the arcs whose weight lies below that percentile
+            import numpy as np
+            pw = {(a[0], a[1]): a[2] for a in pin["arcs"]}
+            for pct in (25, 50, 75):
+                thr = np.percentile([pw[e] for e in E], pct)
+                low = [e for e in E if pw[e] < thr]
+                rest = [e for e in E if e not in low]
+                if not low or not rest:
+                    continue
+                w = O.min_cover(g, rest)
+                if not w or w > 3:
+                    continue
+                res = []
+                for kwx in ({"elements_to_ignore_percentile": pct}, {"elements_to_ignore": [list(e) for e in low]}):
+                    o = drivers.observe(dict(pin, cls="kMinPathErrorCycles", kw=dict(kwx, k=w, weight_type="int")))
+                    res.append(("exc", o["exc_type"]) if o["exc"] else (("solved", round(float(o["obj"]), 5)) if o["solved"] else ("unsolved",)))
+                tags["ignore_percentile"] += 1
+                if res[0] != res[1]:
+                    viol.append({"kind": "ignore_percentile_differs", "msg": f"kMinPathErrorCycles on {pin['arcs']}: elements_to_ignore_percentile={pct} gives {res[0]}, ignoring {low} explicitly gives {res[1]}"})
+                elif res[0][0] == "solved":
+                    nt.append(f"{key}|pct{pct}")
 
     elif fam == "starts_ends":
         pin = sweep.perturbed(inst)
